@@ -4,3 +4,5 @@ import TakVerif.Impl.Bitboard
 import TakVerif.Impl.Position
 import TakVerif.Impl.Move
 import TakVerif.Spec.Tak
+import TakVerif.Impl.Bot
+import TakVerif.Spec.Bot
